@@ -447,3 +447,61 @@ CACHE_EXEMPT = {('StarSet', 'generate', 'threshold'): 'only buckets states by |d
 
 def caches_for(model, rep, prop):
     return cache_discipline(model, rep, CACHE_SCOPE[prop], exempt=CACHE_EXEMPT)
+
+
+# ---------------------------------------------------------------- constructors copy their array arguments
+def ctor_copies_arguments(model, rep, mname, cname, mutable_params, rule='constructor-copies-arguments'):
+    """Nothing the constructor stores on the object shares storage with one of the (mutable) arguments listed: the object's
+    derived data (symmetry group, metric, inverse lattice ...) are computed once from the values at construction, so a caller
+    that later edits its own array must not change the object.  Alias analysis (one level of structure) of ``__init__``."""
+    from ..engines import alias
+    rep.rule(rule, 'attributes set by the constructor share no storage with its array / list arguments')
+    mod = model.mod(mname)
+    ci = model.cls(mname, cname)
+    fn = ci.methods.get('__init__')
+    if fn is None:
+        raise AnalysisError('anchor vanished: %s.__init__' % cname)
+    an = alias.Analyzer(model, mod, ci, {}, depth=0)
+    res = an.run(fn)
+
+    def deep(toks, seen=None):
+        seen = set() if seen is None else seen
+        out = set()
+        for t in toks:
+            if t in seen:
+                continue
+            seen.add(t)
+            out.add(t)
+            if t in an.elems:
+                out |= deep(an.elems[t], seen)
+            if t in an.tuples:
+                for p in an.tuples[t]:
+                    out |= deep(p, seen)
+        return out
+    n = 0
+    for node, path, toks in res.stores:
+        if path.endswith(('[]', '()')) or not toks:
+            continue
+        n += 1
+        shared = sorted(p for p in mutable_params if any(t == 'P:' + p or t.startswith('P:%s.' % p) for t in deep(toks)))
+        rep.ob(rule, mod, node, '%s.__init__: %s = %s' % (cname, path, unparse(getattr(node, 'value', node))[:60]), not shared,
+               '' if not shared else 'the stored value is (or contains) the caller\'s own %s: editing that array after construction changes '
+               'the object, while everything derived from it at construction (symmetry group, metric, ...) stays as it was' % ', '.join(shared),
+               engine='alias', qual='%s.__init__' % cname)
+    rep.floor('%s.__init__ attribute stores' % cname, n, 5)
+    probe = ast.parse('class X:\n def __init__(self, a):\n  self.a = a.T\n  self.b = [u for u in a]\n  self.c = a.copy()\n')
+    from ..model import attach_parents
+    attach_parents(probe)
+
+    class _CI:
+        name, module = 'X', None
+        methods = {'__init__': probe.body[0].body[0]}
+
+        def kind(self, n):
+            return 'instance'
+    a2 = alias.Analyzer(None, None, _CI(), {}, depth=0)
+    r2 = a2.run(probe.body[0].body[0])
+    got = [p for _, p, t in r2.stores if any(x.startswith('P:a') for x in (t | set().union(*[a2.elems.get(y, set()) for y in t])))]
+    if got != ['self.a', 'self.b']:
+        raise AnalysisError('alias self-check failed on the synthetic constructor: %s' % got)
+    return n
